@@ -22,8 +22,8 @@ RULE = ('operation histories over LatexContextDb (new, add_context_category with
         '"a--", iter_* with and without category lists. Streams: A = every sequence of length L_A over the full '
         'placement alphabet on one database (and its derivations); B = every sequence of length L_B over a reduced '
         'alphabet targeting every live database; sequences are cut after an operation that raises (it leaves the '
-        'state unchanged). Plus seeded random histories up to length 25. Non-trivial: at least two successful '
-        'state-changing operations.')
+        'state unchanged). Plus seeded random histories up to length 25. Non-trivial: at least two operations succeed '
+        'after the first `new`.')
 EXHAUSTIVE = {'quick': True, 'thorough': True}
 ASSUMPTIONS = [
     'collections.ChainMap semantics (first map that has the key; new_child prepends; .maps is a plain list) modelled from its documentation',
@@ -108,8 +108,13 @@ def _tup(x):
 
 def _case(ops, src):
     ops = [list(o) for o in ops]
+    # non-trivial: besides the first `new`, at least two operations that succeed (on the specification)
+    sd, good = [], 0
+    for o in ops:
+        if not apply_spec(sd, _norm_op(o))[0].isupper():
+            good += 1
     return {'wire': [1400] + _UNI + w_list(ops, _w_op), 'desc': {'ops': ops, 'src': src},
-            'nt': True}
+            'nt': good >= 3}
 
 
 def case_from_desc(d):
